@@ -114,7 +114,25 @@ fn static_check() -> Result<(), Fail> {
 }
 
 /// A set of compiled patterns with the single-threaded result of every (pattern, text, call kind)
+#[derive(Clone, Copy, Default)]
+struct Recipe {
+    ci: bool,
+    limit: Option<usize>,
+}
+
+fn build_recipe(pat: &str, r: Recipe) -> Result<Regex, String> {
+    let mut b = fancy_regex::RegexBuilder::new(pat);
+    if r.ci {
+        b.case_insensitive(true);
+    }
+    if let Some(l) = r.limit {
+        b.backtrack_limit(l);
+    }
+    b.build().map_err(|e| e.to_string())
+}
+
 struct World {
+    recipes: Vec<Recipe>,
     pats: Vec<String>,
     texts: Vec<String>,
     regs: Vec<Shared>,
@@ -124,11 +142,22 @@ struct World {
 }
 
 impl World {
+    /// expectations only for the listed (pattern, text) pairs (the others stay empty and are never asked for)
+    fn new_pairs(pats: Vec<String>, regs: Vec<Regex>, texts: Vec<String>, pairs: &[(usize, usize)]) -> World {
+        let has_delegate = pats.iter().zip(&regs).map(|(p, r)| engine::is_vm(r) && engine::program_shape(p).map_or(false, |(d, _)| !d.is_empty())).collect();
+        let mut expected: Vec<Vec<Vec<Res>>> = regs.iter().map(|_| texts.iter().map(|_| vec![]).collect()).collect();
+        for &(pi, ti) in pairs {
+            expected[pi][ti] = (0..NKINDS).map(|k| call(&regs[pi], &texts[ti], k)).collect();
+        }
+        let in_flight = (0..pats.len()).map(|_| AtomicUsize::new(0)).collect();
+        World { recipes: vec![Recipe::default(); pats.len()], pats, texts, regs: regs.into_iter().map(Shared).collect(), expected, has_delegate, in_flight }
+    }
+
     fn new(pats: Vec<String>, regs: Vec<Regex>, texts: Vec<String>) -> World {
         let has_delegate = pats.iter().zip(&regs).map(|(p, r)| engine::is_vm(r) && engine::program_shape(p).map_or(false, |(d, _)| !d.is_empty())).collect();
         let expected = regs.iter().map(|r| texts.iter().map(|t| (0..NKINDS).map(|k| call(r, t, k)).collect()).collect()).collect();
         let in_flight = (0..pats.len()).map(|_| AtomicUsize::new(0)).collect();
-        World { pats, texts, regs: regs.into_iter().map(Shared).collect(), expected, has_delegate, in_flight }
+        World { recipes: vec![Recipe::default(); pats.len()], pats, texts, regs: regs.into_iter().map(Shared).collect(), expected, has_delegate, in_flight }
     }
 }
 
@@ -248,12 +277,16 @@ fn stress_round(w: &Arc<World>, counters: &Arc<Counters>, focus: Vec<usize>, seq
 /// each thread cycling through the call kinds from a different start
 fn hammer_round(w: &Arc<World>, counters: &Arc<Counters>, pi: usize, ti: usize, nthreads: usize, reps: usize, round: usize, mode: &'static str) -> Result<Vec<Option<Failure>>, String> {
     let (w2, c2) = (w.clone(), counters.clone());
+    // every second round on a freshly compiled instance that no search has touched yet: the threads' first calls are
+    // the instance's first searches (lazily initialised state is then initialised under contention)
+    let fresh: Option<Arc<Shared>> = if round % 2 == 1 { build_recipe(&w.pats[pi], w.recipes[pi]).ok().map(|r| Arc::new(Shared(r))) } else { None };
     let job = move |k: usize| -> Option<Failure> {
         let w = &*w2;
-        let mine = if k % 3 == 2 { Some(w.regs[pi].0.clone()) } else { None };
+        let shared: &Regex = fresh.as_ref().map_or(&w.regs[pi].0, |f| &f.0);
+        let mine = if k % 3 == 2 { Some(shared.clone()) } else { None };
         for i in 0..reps {
             let kind = (i + k) % NKINDS;
-            let got = call(mine.as_ref().unwrap_or(&w.regs[pi].0), &w.texts[ti], kind);
+            let got = call(mine.as_ref().unwrap_or(shared), &w.texts[ti], kind);
             c2.progress.fetch_add(1, Ordering::SeqCst);
             c2.overlaps_vm.fetch_add(1, Ordering::Relaxed);
             if got != w.expected[pi][ti][kind] {
@@ -273,7 +306,7 @@ const ITER_STATE: &[(&str, &str)] = &[
 
 pub fn run(ctx: &RunCtx) -> Outcome {
     let mut o = Outcome::default();
-    o.rule = format!("(1) corpus of {} delegated and VM-compiled patterns (with delegates, counters, atomic groups, look-arounds, back-references, \\G, \\K, conditionals) x {} texts; rounds of 2..16 threads started behind a barrier, each running a proptest-generated sequence of calls ({}) through one shared &Regex per pattern, through clones made beforehand and through clones made concurrently inside the threads; (2) after each round a hot-spot phase in which all threads hammer one VM pattern on the text that needs the most backtracks through one shared instance (and clones of it) whose backtrack limit is only a third above that need, or one of {} (pattern, text) pairs on which the iterators carry state between searches (skipped empty match, \\G); (3) rounds over freshly generated patterns: proptest byte vectors decoded into ASTs of the unrestricted grammar, kept if VM-compiled and cheap (<= 20000 backtracks on every text), three per round x 12 short texts. Every result must equal the single-threaded result computed beforehand, no call may panic, and every round must finish: a round in which no thread finishes a call for {} s while threads are still out is reported as a deadlock. Static part: a separate crate asserting Regex: Send + Sync + Clone must build. Non-trivial = a call on a shared instance of a VM pattern with >= 1 delegate that started while another thread was inside a call on the same instance (measured with an atomic in-flight counter). Distinct = distinct (round, thread, step).", PATTERNS.len(), TEXTS.len(), KIND_NAMES.join(", "), ITER_STATE.len(), STUCK_SECS);
+    o.rule = format!("(1) corpus of {} delegated and VM-compiled patterns (with delegates, counters, atomic groups, look-arounds, back-references, \\G, \\K, conditionals) x {} texts; rounds of 2..16 threads started behind a barrier, each running a proptest-generated sequence of calls ({}) through one shared &Regex per pattern, through clones made beforehand and through clones made concurrently inside the threads; (2) after each round a hot-spot phase in which all threads hammer one VM pattern on the text that needs the most backtracks through one shared instance (and clones of it) whose backtrack limit is only a third above that need, or one of {} (pattern, text) pairs on which the iterators carry state between searches (skipped empty match, \\G), plus regexes built with RegexBuilder::case_insensitive / backtrack_limit (clones must keep the options), a \\K pattern behind a 300-alternative program and a search ending in StackOverflow on a 600000-character text (error path); every second such round runs on a freshly compiled instance whose first searches are the threads' concurrent calls; (3) rounds over freshly generated patterns: proptest byte vectors decoded into ASTs of the unrestricted grammar, kept if VM-compiled and cheap (<= 20000 backtracks on every text), three per round x 12 short texts. Every result must equal the single-threaded result computed beforehand, no call may panic, and every round must finish: a round in which no thread finishes a call for {} s while threads are still out is reported as a deadlock. Static part: a separate crate asserting Regex: Send + Sync + Clone must build. Non-trivial = a call on a shared instance of a VM pattern with >= 1 delegate that started while another thread was inside a call on the same instance (measured with an atomic in-flight counter). Distinct = distinct (round, thread, step).", PATTERNS.len(), TEXTS.len(), KIND_NAMES.join(", "), ITER_STATE.len() + 5, STUCK_SECS);
     o.assumptions = vec![
         "the thread schedule is the operating system's: this is the one property where generated-input search is weak; the check can only report a violation it happens to provoke".into(),
         "regex-automata's internal pool cannot be put under a controlled scheduler with the installed tooling".into(),
@@ -312,6 +345,7 @@ pub fn run(ctx: &RunCtx) -> Outcome {
     let mut hot_regs = vec![];
     let mut hot_texts: Vec<String> = vec![];
     let mut hot_pairs: Vec<(usize, usize, &'static str)> = vec![];
+    let mut hot_recipes: Vec<Recipe> = vec![];
     for (pi, p) in PATTERNS.iter().enumerate() {
         if !engine::is_vm(&world.regs[pi].0) {
             continue;
@@ -334,7 +368,34 @@ pub fn run(ctx: &RunCtx) -> Outcome {
             hot_pairs.push((hot_pats.len(), hot_texts.len(), "hot-spot (shared instance with a tight backtrack limit)"));
             hot_pats.push(p.to_string());
             hot_regs.push(r);
+            hot_recipes.push(Recipe { ci: false, limit: Some(limit) });
             hot_texts.push(TEXTS[best.1].to_string());
+        }
+    }
+    // regexes built through the builder (clones must carry the options), a `\\K` pattern whose match start needs the
+    // end-of-match fix-up behind a long program, and a search that ends in StackOverflow (error path)
+    let long_k = format!("(?=ab\\K)a(?:{})?", (0..300).map(|i| format!("x{}", i)).collect::<Vec<_>>().join("|"));
+    let big_text = "a".repeat(600_000);
+    let extra: Vec<(String, String, Recipe, &'static str)> = vec![
+        ("(?<=a)b+\\b".to_string(), "ab AB aBB".to_string(), Recipe { ci: true, limit: None }, "iterator-state / builder options (case_insensitive; clones must keep it)"),
+        ("(\\w+) \\1".to_string(), "Foo fOO bar".to_string(), Recipe { ci: true, limit: Some(50_000) }, "iterator-state / builder options (case_insensitive; clones must keep it)"),
+        ("é+(?=x)".to_string(), "ÉéX éx".to_string(), Recipe { ci: true, limit: None }, "iterator-state / builder options (case_insensitive; clones must keep it)"),
+        (long_k, "ab abx7 ab".to_string(), Recipe::default(), "iterator-state / first searches of a fresh instance (\\K start fix-up)"),
+        ("((?:a|b)*)(?!c)".to_string(), big_text, Recipe::default(), "iterator-state / error path (searches ending in StackOverflow, then more searches)"),
+    ];
+    for (p, t, rec, mode) in extra {
+        match build_recipe(&p, rec) {
+            Ok(r) => {
+                hot_pairs.push((hot_pats.len(), hot_texts.len(), mode));
+                hot_pats.push(p);
+                hot_regs.push(r);
+                hot_recipes.push(rec);
+                hot_texts.push(t);
+            }
+            Err(e) => {
+                o.infra_error = Some(format!("pattern {:?} does not compile: {}", p, e));
+                return o;
+            }
         }
     }
     for (p, t) in ITER_STATE {
@@ -343,6 +404,7 @@ pub fn run(ctx: &RunCtx) -> Outcome {
                 hot_pairs.push((hot_pats.len(), hot_texts.len(), "iterator-state (iterators skipping empty matches next to plain searches on one instance)"));
                 hot_pats.push(p.to_string());
                 hot_regs.push(r);
+                hot_recipes.push(Recipe::default());
                 hot_texts.push(t.to_string());
             }
             Err(e) => {
@@ -351,7 +413,12 @@ pub fn run(ctx: &RunCtx) -> Outcome {
             }
         }
     }
-    let hot_world = Arc::new(World::new(hot_pats, hot_regs, hot_texts));
+    let hot_world = Arc::new({
+        let pairs: Vec<(usize, usize)> = hot_pairs.iter().map(|p| (p.0, p.1)).collect();
+        let mut w = World::new_pairs(hot_pats, hot_regs, hot_texts, &pairs);
+        w.recipes = hot_recipes;
+        w
+    });
     let counters = Arc::new(Counters::default());
     let inner_tsan = std::env::var("FRV_C18_TSAN_INNER").is_ok();
     let rounds = match std::env::var("FRV_C18_ROUNDS").ok().and_then(|r| r.parse().ok()) {
@@ -401,7 +468,7 @@ pub fn run(ctx: &RunCtx) -> Outcome {
             todo.push(*hots[round % hots.len()]);
         }
         for (pi, ti, mode) in todo {
-            let reps = 60usize;
+            let reps = if hot_world.texts[ti].len() > 10_000 { 3usize } else { 60usize };
             match hammer_round(&hot_world, &counters, pi, ti, nthreads, reps, round, mode) {
                 Err(what) => {
                     first_fail = Some(stuck(what, json!({"round": round, "threads": nthreads, "mode": mode, "pattern": hot_world.pats[pi], "text": hot_world.texts[ti]})));
